@@ -130,6 +130,25 @@ fn guard_attr(fam: Family, g: GuardShape) -> Option<&'static str> {
     })
 }
 
+/// further spellings with the same guard shape (generators and checks branch on exactly which validators
+/// are present: one-sided bounds, bounds without `finite`, sanitizers next to validators, ...)
+fn guard_variants(fam: Family, g: GuardShape) -> Vec<&'static str> {
+    let mut v: Vec<&'static str> = guard_attr(fam, g).into_iter().collect();
+    match (fam, g) {
+        (Family::Int, GuardShape::Std) => v.extend(["validate(greater = 1),", "validate(less_or_equal = 100),"]),
+        (Family::Int, GuardShape::None) => v.extend(["sanitize(with = clamp),"]),
+        (Family::Float, GuardShape::Std) => v.extend(["validate(greater_or_equal = 0.0),", "validate(less = 100.0),"]),
+        (Family::Float, GuardShape::StdFinite) => v.extend(["validate(finite),", "validate(greater = 0.0, finite),", "validate(finite, greater_or_equal = 0.0, less = 1.0),"]),
+        (Family::Float, GuardShape::None) => v.extend(["sanitize(with = clamp),"]),
+        (Family::Str, GuardShape::Std) => v.extend(["validate(len_char_min = 1),", "validate(len_char_max = 9),", "sanitize(trim, lowercase), validate(len_char_min = 1, len_char_max = 9),"]),
+        (Family::Str, GuardShape::None) => v.extend(["sanitize(trim),", "sanitize(uppercase),"]),
+        (Family::Str, GuardShape::StdPred) => v.extend(["sanitize(trim), validate(predicate = is_ok, len_char_max = 9),"]),
+        (Family::Any, GuardShape::None) => v.extend(["sanitize(with = clamp),"]),
+        _ => {}
+    }
+    v
+}
+
 fn default_attr(fam: Family) -> &'static str {
     match fam {
         Family::Int => "default = 5,",
@@ -180,10 +199,13 @@ fn check_derive_space(shim: Shim, feats: Features, masks: &[u32], tier: Tier, la
                     continue;
                 }
             }
-            let Some(ga) = guard_attr(fam, g) else { continue };
+            if guard_attr(fam, g).is_none() {
+                continue;
+            }
             let (_ty, item) = fam_item(fam);
+            for (gi, ga) in guard_variants(fam, g).into_iter().enumerate() {
             for with_default in [false, true] {
-                if only.is_some() && !with_default {
+                if only.is_some() && (!with_default || gi > 0) {
                     continue;
                 }
                 let parts: Vec<Rep> = masks
@@ -228,6 +250,7 @@ fn check_derive_space(shim: Shim, feats: Features, masks: &[u32], tier: Tier, la
                     rep.merge(p);
                 }
                 rep.states += 1;
+            }
             }
         }
     }
@@ -525,8 +548,15 @@ fn c15(tier: Tier) -> Rep {
     let mut space: Vec<(String, String)> = vec![];
     let masks = masks_upto(if tier == Tier::Quick { 2 } else { 3 });
     for (fam, ty) in [(Family::Int, "i32"), (Family::Int, "u128"), (Family::Float, "f64"), (Family::Float, "f32"), (Family::Any, "Pt"), (Family::Any, "[u8; 4]")] {
-        for g in SHAPES {
-            let Some(ga) = guard_attr(fam, g) else { continue };
+        // the guard shapes of the admissibility model + one-sided / two-sided bound sets with and without `finite`
+        // (generators branch on exactly which bounds are present)
+        let mut guards: Vec<&'static str> = SHAPES.iter().filter_map(|g| guard_attr(fam, *g)).collect();
+        match fam {
+            Family::Float => guards.extend(["validate(greater_or_equal = 0.0),", "validate(less = 100.0),", "validate(greater = 0.0),", "validate(less_or_equal = 1.0),", "validate(finite),", "validate(finite, greater_or_equal = 0.0),", "validate(less = 1.0, finite),", "validate(finite, greater = 0.0, less_or_equal = 1.0),"]),
+            Family::Int => guards.extend(["validate(greater = 1),", "validate(greater_or_equal = 1),", "validate(less = 100),", "validate(less_or_equal = 100),"]),
+            _ => {}
+        }
+        for ga in guards {
             for &mask in &masks {
                 let set = subset_of(mask);
                 let names: Vec<&str> = set.iter().map(|t| t.name()).collect();
